@@ -85,10 +85,7 @@ class BitmapMetrics(NamedTuple):
                 _INT8_RANGE,
                 max(
                     round(
-                        (
-                            _width_in_pixels(config, image_data)
-                            - config.bitmap_resolution
-                        )
+                        (_width_in_pixels(config, image_data) - image_data.size[0])
                         / 2
                     ),
                     0,
